@@ -321,6 +321,21 @@ non-trivial = the dataset is non-empty and some term needs escaping, is non-ASCI
         let nquads = match r.below(10) { 0 => 0, 1..=4 => 1, 5..=7 => 2, _ => r.range(3, 4) };
         let mut g = Gen { r: r.fork(1), sum: &mut sum, lower_tags: stream == "reader", w3c_labels: stream == "w3c-label", lax_tags: stream == "lax-tag" };
         let mut quads: Vec<Q> = (0..nquads).map(|_| g.quad(nq)).collect();
+        // related statements: the same triple in another graph, an exact duplicate, the same subject/predicate
+        // with another object ... next to the original or at the end (writers must not merge or drop any of them)
+        if stream == "dataset" && !quads.is_empty() && g.r.chance(1, 3) {
+            for _ in 0..g.r.range(1, 2) {
+                let k = g.r.below(quads.len()); let q = quads[k].clone();
+                let v: Q = match g.r.below(6) {
+                    0 | 1 => { g.sum.bump("related:same-triple-other-graph"); let other = match (&q.3, g.r.below(3)) { (Some(_), 0) => None, (_, 1) => Some(T::Iri(gen_iri(&mut g.r, g.sum))), _ => Some(g.bnode()) }; (q.0, q.1, q.2, if nq { other } else { q.3 }) }
+                    2 => { g.sum.bump("related:duplicate"); q }
+                    3 => { g.sum.bump("related:same-sp-other-object"); let o = g.object(0); (q.0, q.1, o, q.3) }
+                    4 => { g.sum.bump("related:same-po-other-subject"); let sb = g.subject(0); (sb, q.1, q.2, q.3) }
+                    _ => { g.sum.bump("related:object-as-subject"); let o = g.object(0); match &q.2 { T::Iri(_) | T::B(_) | T::Tr(_) => (q.2.clone(), q.1, o, q.3), _ => (q.0, q.1, o, q.3) } }
+                };
+                if g.r.chance(2, 3) { quads.insert(k + 1, v); } else { quads.push(v); }
+            }
+        }
         if stream == "lax-tag" { let l = g.literal(); quads.push((T::Iri("x:s".into()), T::Iri("x:p".into()), l, None)); }
         if stream == "w3c-label" && !quads.iter().any(|q| matches!(q.0, T::B(_)) || matches!(q.2, T::B(_))) { quads.push((g.bnode(), T::Iri("x:p".into()), g.bnode(), None)); }
         sum.evaluations += 1;
